@@ -76,7 +76,10 @@ LostChoices(A) ==
       cand   == SortByPn({p \in R \ forced : p[1] < lg})            \* time threshold: a prefix of the older ones
   IN {forced \cup {cand[i] : i \in 1..k} : k \in 0..Len(cand)}
 
-Cong(A, L, nowFull, toDrainExit, rttExpire, rttExit, tw, pr2, fewAcked) ==
+TwSet == {minW, minW + mds, maxW + mds}     \* target window incl. ack height: never below the minimum (:701)
+
+\* The abstracted guards are offered as choices only where the code would evaluate them.
+Cong(A, L) ==
   /\ nEv < MaxEv /\ A \cup L # {}
   /\ LET prior  == SetSum(out)
          aPns   == {a[1] : a \in A}
@@ -98,13 +101,29 @@ Cong(A, L, nowFull, toDrainExit, rttExpire, rttExit, tw, pr2, fewAcked) ==
          \* sampler: only packets still in the map produce acked bytes    bandwidth_sampler.go:762-768
          bAck   == SetSum({a \in A : a[1] \in qp})
          bLost  == SetSum(L)
-         \* checkIfFullBandwidthReached / maybeExitStartupOrDrain / maybeEnterOrExitProbeRtt (abstracted guards)
-         full2  == full \/ (rs /\ nowFull)
-         md1    == IF mode = "STARTUP" /\ full2 THEN "DRAIN" ELSE mode
-         md2    == IF md1 = "DRAIN" /\ toDrainExit THEN "PROBE_BW" ELSE md1
-         md3    == IF rttExpire /\ md2 # "PROBE_RTT" THEN "PROBE_RTT"
-                   ELSE IF md2 = "PROBE_RTT" /\ rttExit THEN (IF full2 THEN "PROBE_BW" ELSE "STARTUP") ELSE md2
-         \* calculateCongestionWindow                                     :978-1008
+         \* RemoveObsoletePackets                                         :626-632
+         least  == IF A # {} THEN lastA - 2 ELSE MaxOf({l[1] : l \in L}) + 1
+         qp2    == IF PruneOn THEN {p \in qp : p >= least} ELSE qp
+         ackedS == SortByPn(A)
+         lostS  == SortByPn(L)
+     IN
+     \* checkIfFullBandwidthReached: only at a round start, only while not yet full   :602-604
+     \E nowFull \in (IF rs /\ ~full THEN BOOLEAN ELSE {FALSE}) :
+     LET full2 == full \/ nowFull
+         md1   == IF mode = "STARTUP" /\ full2 THEN "DRAIN" ELSE mode            \* :833-843
+     IN
+     \E drainExit \in (IF md1 = "DRAIN" THEN BOOLEAN ELSE {FALSE}) :              \* :844-846
+     LET md2 == IF drainExit THEN "PROBE_BW" ELSE md1 IN
+     \* maybeEnterOrExitProbeRtt: min_rtt expired / PROBE_RTT served               :850-898
+     \E rttMove \in BOOLEAN :
+     LET md3 == IF ~rttMove THEN md2
+                ELSE IF md2 # "PROBE_RTT" THEN "PROBE_RTT"
+                ELSE IF full2 THEN "PROBE_BW" ELSE "STARTUP"
+     IN
+     \E tw \in (IF md3 = "PROBE_RTT" THEN {minW} ELSE TwSet) :
+     \E fewAcked \in (IF ~full2 /\ cwnd >= tw /\ md3 # "PROBE_RTT" THEN BOOLEAN ELSE {FALSE}) :
+     \E pr2 \in PrSet :
+     LET \* calculateCongestionWindow                                     :978-1008
          cw1    == IF md3 = "PROBE_RTT" THEN cwnd
                    ELSE LET c == IF full2 THEN Min2(tw, cwnd + bAck)
                                  ELSE IF cwnd < tw \/ fewAcked THEN cwnd + bAck ELSE cwnd
@@ -116,24 +135,15 @@ Cong(A, L, nowFull, toDrainExit, rttExpire, rttExit, tw, pr2, fewAcked) ==
                             b == IF rec1 = "GROWTH" THEN a + bAck ELSE a
                             c == Max2(b, bif2 + bAck)
                         IN IF RecFloorOn THEN Max2(minW, c) ELSE c
-         \* RemoveObsoletePackets                                         :626-632
-         least  == IF A # {} THEN lastA - 2 ELSE MaxOf({l[1] : l \in L}) + 1
-         qp2    == IF PruneOn THEN {p \in qp : p >= least} ELSE qp
-         e      == [ev |-> "Cong", scn |-> 0, t |-> 0, prior |-> prior, acked |-> SortByPn(A), lost |-> SortByPn(L),
+         e      == [ev |-> "Cong", scn |-> 0, t |-> 0, prior |-> prior, acked |-> ackedS, lost |-> lostS,
                     cwnd |-> GetCwnd(md3, cw1, rw2, rec1), bw |-> PacerBw(pr2), slots |-> Slots(qp2)]
-     IN \* the abstracted guards are only choices where the code would evaluate them
-        /\ nowFull => (rs /\ ~full)
-        /\ toDrainExit => md1 = "DRAIN"
-        /\ rttExpire => md2 # "PROBE_RTT"
-        /\ rttExit => md2 = "PROBE_RTT"
-        /\ fewAcked => (~full2 /\ cwnd >= tw /\ md3 # "PROBE_RTT")
-        /\ (md3 = "PROBE_RTT") => tw = minW
-        /\ out' = (out \ A) \ L
+     IN /\ out' = (out \ A) \ L
         /\ largest' = IF A = {} THEN largest ELSE Max2(largest, lastA)
         /\ mode' = md3 /\ rec' = rec1 /\ cwnd' = cw1 /\ rwnd' = rw2 /\ full' = full2
         /\ roundEnd' = rEnd2 /\ endRec' = endR2 /\ bif' = bif2 /\ qp' = qp2
         /\ mon' = MonStep(mon, e, 0)
-        /\ hist' = Append(hist, <<"cong", SortSeq(SetToSeq(aPns), LAMBDA x, y : x < y), SortSeq(SetToSeq({l[1] : l \in L}), LAMBDA x, y : x < y)>>)
+        /\ hist' = Append(hist, <<"cong", SortSeq(SetToSeq(aPns), LAMBDA x, y : x < y),
+                                  SortSeq(SetToSeq({l[1] : l \in L}), LAMBDA x, y : x < y)>>)
   /\ nEv' = nEv + 1
   /\ UNCHANGED <<lastPn, mds, initW, minW, maxW, lastSent>>
 
@@ -166,14 +176,10 @@ Init == /\ lastPn = -1 /\ out = {} /\ largest = -1 /\ mds = Mds0
         /\ qp = {} /\ nEv = 0 /\ hist = <<>>
         /\ mon = MonStart(Cfg, Mds0)
 
-TwSet == {minW, minW + mds, maxW + mds}     \* target window incl. ack height: never below the minimum (:701)
-
 \* the pacing-rate estimate is an arbitrary value of PrSet at every read (calculatePacingRate abstracted)
 Next == \/ \E gap \in {1, 2} : \E b \in (IF SmallOn THEN {1, mds} ELSE {mds}) : \E p \in PrSet : Send(gap, b, TRUE, p)
         \/ \E p \in PrSet : Send(1, 1, FALSE, p)
-        \/ \E A \in SUBSET out : \E L \in LostChoices(A) :
-             \E nowFull, drainExit, rttExpire, rttExit, fewAcked \in BOOLEAN : \E tw \in TwSet : \E p2 \in PrSet :
-               Cong(A, L, nowFull, drainExit, rttExpire, rttExit, tw, p2, fewAcked)
+        \/ \E A \in SUBSET out : \E L \in LostChoices(A) : Cong(A, L)
         \/ \E v \in MdsUp : \E p \in PrSet : SetMDS(v, p)
 
 Spec == Init /\ [][Next]_vars
